@@ -1,0 +1,172 @@
+// +build verif
+
+package main
+
+// Contracts for the opgen command, read by /verif's VC generator (build tag verif; comments only).
+// Process-level ghost state (exitcode, outn/outl = writes to standard output, flaghelp) and the
+// spec functions are declared in /verif/spec/60_opgen.smt2.
+
+//@ package
+//@   define CCOF(s) = ite(s == "uppercase", 1, ite(s == "lowercase", 2, ite(s == "digits", 4, ite(s == "symbols", 8, ite(s == "ambiguous", 16, 0)))))
+//@   define CAPOF(s) = ite(s == "none", "none", ite(s == "first", "first", ite(s == "all", "all", ite(s == "random", "random", ite(s == "one", "one", "")))))
+//@   define sfConst(f, v) = f != nil && sfent(f) == 0.0 && forall(int(k), trig(sepval(f, k)), sepval(f, k) == v)
+//@   define isSepWord(s) = s == "hyphen" || s == "space" || s == "comma" || s == "period" || s == "underscore" || s == "digit" || s == "none"
+//@   define DA() = arr(defaultCharRecipe.allow)
+//@   define DX() = arr(defaultCharRecipe.exclude)
+//@   spec CC:  forall(str(s), trig(ccOf(s)), ccOf(s) == CCOF(s))
+//@   spec CAP: forall(str(s), trig(capOf(s)), capOf(s) == CAPOF(s))
+//@   invariant [C17] cc-table:  forall(str(s), trig(dom(ccMap, s)), dom(ccMap, s) == (ccOf(s) != 0)) &&
+//@        forall(str(s), trig(ccOf(s)), lookup(ccMap, s) == ccOf(s))
+//@   invariant [C17] cap-table: forall(str(s), trig(capOf(s)), lookup(capitalizeMap, s) == capOf(s))
+//@   invariant [C17] sep-table: forall(str(s), trig(dom(separatorMap, s)), dom(separatorMap, s) == isSepWord(s)) &&
+//@        sfConst(mapval(separatorMap, "hyphen"), "-") && sfConst(mapval(separatorMap, "space"), " ") && sfConst(mapval(separatorMap, "comma"), ",") &&
+//@        sfConst(mapval(separatorMap, "period"), ".") && sfConst(mapval(separatorMap, "underscore"), "_") &&
+//@        mapval(separatorMap, "digit") == spg.SFDigits1 && mapval(separatorMap, "none") == spg.SFNone
+//@   invariant [C17] char-defaults-len: defaultCharRecipe.length == 20
+//@   invariant [C17] char-defaults-allow: len(defaultCharRecipe.allow) == 4 && off(defaultCharRecipe.allow) == 0 &&
+//@        DA()[0] == "uppercase" && DA()[1] == "lowercase" && DA()[2] == "digits" && DA()[3] == "symbols"
+//@   invariant [C17] char-defaults-require: len(defaultCharRecipe.require) == 0
+//@   invariant [C17] char-defaults-exclude: len(defaultCharRecipe.exclude) == 1 && off(defaultCharRecipe.exclude) == 0 && DX()[0] == "ambiguous"
+//@   invariant [C17] char-defaults-fold: orfold(DA(), 0, 0) == 0 && orfold(DA(), 0, 1) == 1 && orfold(DA(), 0, 2) == 3 && orfold(DA(), 0, 3) == 7 && orfold(DA(), 0, 4) == 15 &&
+//@        orfold(DX(), 0, 0) == 0 && orfold(DX(), 0, 1) == 16 && orfold(arr(defaultCharRecipe.require), off(defaultCharRecipe.require), 0) == 0
+//@   invariant [C17] flag-vars: flagLength != nil && flagAllow != nil && flagRequire != nil && flagExclude != nil && flagEntropyCR != nil &&
+//@        flagSize != nil && flagWordList != nil && flagWordListFile != nil && flagSeparator != nil && flagCapitalize != nil && flagEntropyWL != nil &&
+//@        wordlistCommand != nil && charactersCommand != nil && wordlistCommand != charactersCommand
+//@   invariant [C17] flag-sets: FSET[flagLength] == charactersCommand && FSET[flagAllow] == charactersCommand && FSET[flagRequire] == charactersCommand &&
+//@        FSET[flagExclude] == charactersCommand && FSET[flagEntropyCR] == charactersCommand &&
+//@        FSET[flagSize] == wordlistCommand && FSET[flagWordList] == wordlistCommand && FSET[flagWordListFile] == wordlistCommand &&
+//@        FSET[flagSeparator] == wordlistCommand && FSET[flagCapitalize] == wordlistCommand && FSET[flagEntropyWL] == wordlistCommand
+//@   invariant [C17] flag-names: FNAME[flagLength] == "length" && FNAME[flagAllow] == "allow" && FNAME[flagRequire] == "require" &&
+//@        FNAME[flagExclude] == "exclude" && FNAME[flagEntropyCR] == "entropy" &&
+//@        FNAME[flagSize] == "size" && FNAME[flagWordList] == "list" && FNAME[flagWordListFile] == "file" &&
+//@        FNAME[flagSeparator] == "separator" && FNAME[flagCapitalize] == "capitalize" && FNAME[flagEntropyWL] == "entropy"
+
+//@ func init
+//@   ensures [C17] defaults: *flagLength == 20 && *flagAllow == "" && *flagRequire == "" && *flagExclude == "" && !*flagEntropyCR &&
+//@        *flagSize == 4 && *flagWordList == "words" && *flagWordListFile == "" && *flagSeparator == "hyphen" && *flagCapitalize == "none" && !*flagEntropyWL
+
+//@ func createSeparatorFunc$1
+//@   pure
+//@   ensures [C17] constant: res0 == value && res1 == 0.0
+
+//@ func createSeparatorFunc
+//@   ensures [C17] constant: sfConst(res, value) && fresh(res)
+
+//@ func parseCapitalize
+//@   ensures [C17] table: res == capOf(value)
+
+//@ func parseSeparator
+//@   ensures [C17] table: res == ite(isSepWord(value), mapval(separatorMap, value), nil)
+
+//@ func parseCharacterClasses
+//@   define words() = ite(value != "", csplitA(stripsp(value)), arr(defaults))
+//@   define woff()  = ite(value != "", 0, off(defaults))
+//@   define wn()    = ite(value != "", csplitN(stripsp(value)), len(defaults))
+//@   ensures [C17] classes: res == orfold(words(), woff(), wn())
+//@   loop 1 invariant [C17] fold: ccFlags == orfold(words(), woff(), it) && 0 <= ccFlags && ccFlags < 32 &&
+//@        arr(classes) == words() && off(classes) == woff() && len(classes) == wn()
+
+//@ func printUsage
+//@   note the usage text is, by definition, whatever printUsage writes (isUsageLine); the property does not fix its wording
+//@   trusted-ensures [C17] usage-def: isUsageLine(outl[old(outn)])
+//@   ensures [C17] one-write: exitcode == -1 && outn == old(outn) + 1 &&
+//@        forall(int(k), trig(outl[k]), 0 <= k && k < old(outn) ==> outl[k] == old(outl[k]))
+
+//@ func charGenerator
+//@   define clsOf(v, dflt) = ite(v == "", dflt, orfold(csplitA(stripsp(v)), 0, csplitN(stripsp(v))))
+//@   ensures [C17] recipe: res != nil && fresh(res) && res.Length == *flagLength &&
+//@        res.Allow == clsOf(*flagAllow, 15) && res.Require == clsOf(*flagRequire, 0) && res.Exclude == clsOf(*flagExclude, 16) &&
+//@        res.AllowChars == "" && res.ExcludeChars == "" && len(res.RequireSets) == 0
+
+//@ func parseWordList
+//@   define known() = value == "words" || value == "syllables"
+//@   define src() = ite(value == "words", spg.AgileWords, spg.AgileSyllables)
+//@   ensures [C17] unknown: !known() ==> exitcode == 2 && outn == old(outn) + 1 && isUsageLine(outl[old(outn)])
+//@   ensures [C17] known:   known() && exitcode == -1 ==> outn == old(outn) && res != nil && fresh(res) &&
+//@        normOf(arr(res.words), off(res.words), len(res.words), arr(src()), off(src()), len(src()))
+//@   ensures [C17] refused: known() && exitcode != -1 ==> exitcode == 1 && outn == old(outn) && (len(src()) == 0 || len(src()) > 4294967295)
+//@   ensures [C17] kept-out: forall(int(k), trig(outl[k]), 0 <= k && k < old(outn) ==> outl[k] == old(outl[k]))
+//@   ensures [C17] exits: exitcode == -1 || exitcode == 1 || exitcode == 2
+//@   ensures [C17] usage-only: exitcode == 2 ==> !known()
+
+//@ func loadWordListFile
+//@   define text() = filetext(path)
+//@   ensures [C17] loaded:  exitcode == -1 ==> !fileerr(path) && res != nil && fresh(res) &&
+//@        normOf(arr(res.words), off(res.words), len(res.words), fieldsA(text()), 0, fieldsN(text()))
+//@   ensures [C17] refused: exitcode != -1 ==> exitcode == 1 && (fileerr(path) || fieldsN(text()) == 0 || fieldsN(text()) > 4294967295)
+//@   ensures [C17] silent:  outn == old(outn) && outl == old(outl)
+
+//@ func wlGenerator
+//@   define fromFile() = *flagWordListFile != ""
+//@   define known() = *flagWordList == "words" || *flagWordList == "syllables"
+//@   define src() = ite(*flagWordList == "words", spg.AgileWords, spg.AgileSyllables)
+//@   define text() = filetext(*flagWordListFile)
+//@   ensures [C17] recipe: exitcode == -1 ==> res != nil && fresh(res) && res.Length == *flagSize && res.SeparatorChar == "" &&
+//@        res.Capitalize == capOf(*flagCapitalize) && res.SeparatorFunc == ite(isSepWord(*flagSeparator), mapval(separatorMap, *flagSeparator), nil) &&
+//@        res.list != nil
+//@   ensures [C17] list-builtin: exitcode == -1 && !fromFile() ==> known() &&
+//@        normOf(arr(res.list.words), off(res.list.words), len(res.list.words), arr(src()), off(src()), len(src()))
+//@   ensures [C17] list-file: exitcode == -1 && fromFile() ==>
+//@        normOf(arr(res.list.words), off(res.list.words), len(res.list.words), fieldsA(text()), 0, fieldsN(text()))
+//@   ensures [C17] unknown-list: !fromFile() && !known() ==> exitcode == 2 && outn == old(outn) + 1 && isUsageLine(outl[old(outn)])
+//@   ensures [C17] exits: exitcode == -1 || exitcode == 1 || exitcode == 2
+//@   ensures [C17] usage-only: exitcode == 2 ==> !fromFile() && !known()
+//@   ensures [C17] refused: exitcode == 1 ==> outn == old(outn)
+//@   ensures [C17] running: exitcode == -1 ==> outn == old(outn)
+//@   ensures [C17] kept-out: forall(int(k), trig(outl[k]), 0 <= k && k < old(outn) ==> outl[k] == old(outl[k]))
+
+//@ func main
+//@   nomerge
+//@   ghost RC (CharRecipe)
+//@   ghost RW (WLRecipe)
+//@   ghost PT (Str)
+//@   ghost EV (Real)
+//@   ghost GC (Int)
+//@   ghost GE (Int)
+//@   ghost ON (Int)
+//@   call Generate#1 ghost RC = *recv
+//@   call Generate#1 ghost RW = *recv
+//@   call Entropy#1 ghost RC = *recv
+//@   call Entropy#1 ghost RW = *recv
+//@   call Generate#1 ghost PT = catTok(arr(res0.tokens), off(res0.tokens), len(res0.tokens))
+//@   call Generate#1 ghost GC = 1
+//@   call Generate#1 ghost GE = res1
+//@   call Generate#1 ghost ON = outn
+//@   call Entropy#1 ghost EV = res0
+//@   define status() = ite(exitcode == -1, 0, exitcode)
+//@   define isChars() = len(os.Args) > 1 && os.Args[1] == "characters"
+//@   define isWords() = len(os.Args) > 1 && os.Args[1] == "words"
+//@   define wantEnt() = *flagEntropyWL || *flagEntropyCR
+//@   define clsOf(v, dflt) = ite(v == "", dflt, orfold(csplitA(stripsp(v)), 0, csplitN(stripsp(v))))
+//@   define fromFile() = *flagWordListFile != ""
+//@   define src() = ite(*flagWordList == "words", spg.AgileWords, spg.AgileSyllables)
+//@   define honoured() = (isChars() ==> alphaSize(pub(RC), arr(RC.RequireSets), off(RC.RequireSets), len(RC.RequireSets)) >= 1) &&
+//@        (isWords() ==> len(RW.list.words) >= 1)
+//@   note honoured(): the recipe is one the library can honour as far as Entropy() is concerned (non-empty alphabet / list); for a generated password it is Generate returning without error
+//@   requires [C17] init.defaults: *flagLength == 20 && *flagAllow == "" && *flagRequire == "" && *flagExclude == "" && !*flagEntropyCR &&
+//@        *flagSize == 4 && *flagWordList == "words" && *flagWordListFile == "" && *flagSeparator == "hyphen" && *flagCapitalize == "none" && !*flagEntropyWL
+//@   requires [C17] start: outn == 0 && !flaghelp && GC == 0
+//@   requires [C17] A-OS: len(os.Args) >= 1
+//@   ensures [C17] statuses:      status() == 0 || status() == 1 || status() == 2
+//@   ensures [C17] usage-status:  !flaghelp && !isChars() && !isWords() ==> status() == 2
+//@   ensures [C17] unknown-list:  !flaghelp && isWords() && !fromFile() && *flagWordList != "words" && *flagWordList != "syllables" ==> status() == 2
+//@   ensures [C17] usage-output:  status() == 2 ==> forall(int(k), trig(outl[k]), 0 <= k && k < outn ==> isUsageLine(outl[k]))
+//@   ensures [C17] refused-no-password: status() == 1 ==> (GC == 0 && outn == 0) || (GC == 1 && GE != nil && outn == ON)
+//@   note refused-no-password: a refusal before generation writes nothing to standard output; after a refused Generate() nothing more is written (the library's own diagnostics, if any, are not a password)
+//@   ensures [C17] refusal-status: GC == 1 && GE != nil ==> status() == 1
+//@   ensures [C17] help-silent:   flaghelp ==> outn == 0
+//@   ensures [C17] one-line:      status() == 0 && !flaghelp && (wantEnt() ==> honoured()) ==> outn == 1
+//@   ensures [C17] password-line: status() == 0 && !flaghelp && !wantEnt() ==> GC == 1 && GE == nil && outn == 1 && outl[0] == println1(boxStr(PT))
+//@   ensures [C17] entropy-line:  status() == 0 && !flaghelp && wantEnt() ==> GC == 0 && outl[outn-1] == printf1("%.2f\n", boxReal(EV))
+//@   ensures [C17] char-recipe:   status() == 0 && !flaghelp && isChars() ==> RC.Length == *flagLength &&
+//@        RC.Allow == clsOf(*flagAllow, 15) && RC.Require == clsOf(*flagRequire, 0) && RC.Exclude == clsOf(*flagExclude, 16) &&
+//@        RC.AllowChars == "" && RC.ExcludeChars == "" && len(RC.RequireSets) == 0
+//@   ensures [C17] word-recipe:   status() == 0 && !flaghelp && isWords() ==> RW.Length == *flagSize && RW.SeparatorChar == "" &&
+//@        RW.Capitalize == capOf(*flagCapitalize) && RW.SeparatorFunc == ite(isSepWord(*flagSeparator), mapval(separatorMap, *flagSeparator), nil) && RW.list != nil
+//@   ensures [C17] word-list-builtin: status() == 0 && !flaghelp && isWords() && !fromFile() ==>
+//@        normOf(arr(RW.list.words), off(RW.list.words), len(RW.list.words), arr(src()), off(src()), len(src()))
+//@   ensures [C17] word-list-file: status() == 0 && !flaghelp && isWords() && fromFile() ==>
+//@        normOf(arr(RW.list.words), off(RW.list.words), len(RW.list.words), fieldsA(filetext(*flagWordListFile)), 0, fieldsN(filetext(*flagWordListFile)))
+
+//@ func parseRecipe
+//@   note unused by main; under contract so that its writes are frame-checked like every function of the package
